@@ -25,6 +25,7 @@ import math
 import os
 import random as pyrandom          # the module-level generator belongs to the code under test
 import shutil
+import sys
 import tempfile
 
 from harness import common
@@ -223,6 +224,11 @@ def fmt_bip(G):
     byright = [(u, v) for v in range(1, G.right_order() + 1) for u in G.left_neighbors(v)]
     return "{} {} {} {} {} {}".format(tag, G.left_order(), G.right_order(), G.number_of_edges(),
                                       fmt_pairs(G.edges()), fmt_pairs(byright))
+
+
+def fmt_bip_left(G):
+    """the left view only (no loop over the right side): for r > sys.maxsize, driver op gb_glrd_big"""
+    return "BL {} {} {} {}".format(G.left_order(), G.right_order(), G.number_of_edges(), fmt_pairs(G.edges()))
 
 
 def fmt_graph(G):
@@ -467,7 +473,13 @@ def build_sampler(info):
     state = {}
     case = Case("sampler", "", None, None, cls=which, nontrivial=True, info=info)
 
+    # r > sys.maxsize: the rejection-loop branch of bipartite_random_left_regular; neither side may
+    # loop over range(1, r + 1) (driver op gb_glrd_big = leftRegularNoRadj, theorem glrd_driver_run)
+    huge = which == "glrd" and a[1] > sys.maxsize
+
     def mkreq(draws):
+        if huge:
+            return req("gb_glrd_big", a[0], a[1], a[2], draws)
         if which == "glrd":
             return req("gb_glrd", a[0], a[1], a[2], draws)
         if which == "glrm":
@@ -491,7 +503,7 @@ def build_sampler(info):
                 else:
                     G = rb.fn(*a)
                 state["G"] = G
-                out = "OK {} R 0".format(fmt_bip(G))
+                out = "OK {} R 0".format(fmt_bip_left(G) if huge else fmt_bip(G))
             except Exception as e:
                 state["exc"] = e
                 out = common.exc_name(e)
@@ -509,6 +521,10 @@ def build_sampler(info):
             br = "refused" if "exc" in state and rb.calls <= 1 else (
                 "restarts" if rb.calls > 1 else ("retries" if len(rec.draws) > 2 * n else "first-try"))
             case.cls = "regular:{}:{}".format(br, inj)
+        elif huge:
+            legal = a[0] >= 0 and a[2] >= 0
+            br = "refused" if not legal else ("repeat" if len(rec.draws) > a[0] * min(a[1], a[2]) else "no-repeat")
+            case.cls = "glrd:huge-r:{}:{}".format(br, inj)
         else:
             case.cls = "{}:{}".format(which, inj)
         return out
@@ -543,6 +559,18 @@ def build_sampler(info):
             return None
         if (G.left_order(), G.right_order()) != (l, r):
             return {"defect": which + ":sides"}
+        if huge:
+            dl = [G.right_degree(u) for u in range(1, l + 1)]
+            es = list(G.edges())
+            if len(set(es)) != len(es) or len(es) != G.number_of_edges() or sum(dl) != len(es) or \
+                    any(not (1 <= u <= l and 1 <= v <= r) for u, v in es) or \
+                    any(u not in G.left_neighbors(v) for u, v in es):
+                return {"defect": "glrd:inconsistent-object"}
+            want = min(x, r)
+            if any(d != want for d in dl):
+                case.cls = "glrd:not-left-regular"
+                return {"defect": case.cls, "left_degrees": dl, "want": want}
+            return None
         dl, dr = degrees(G)
         es = list(G.edges())
         if len(set(es)) != len(es) or len(es) != G.number_of_edges() or sum(dl) != len(es) or sum(dr) != len(es):
@@ -1260,6 +1288,13 @@ def cases(ctx):
                     infos.append(("sampler", dict(which="regular", args=[L, R, d], mode=rng.choice(MODES), rseed=rs())))
             for p in (0, 1, 0.5, -0.25, 1.5, 0.1):
                 infos.append(("sampler", dict(which="glrp", args=[L, R, p], mode=rng.choice(MODES), rseed=rs())))
+    # glrd beyond sys.maxsize: random.sample is replaced by a rejection loop over randint(1, r)
+    for R in (sys.maxsize + 1, sys.maxsize + 6, 1 << 70):
+        for L in range(0, 4):
+            for d in (-1, 0, 1, 2, 3):
+                for mode in (MODES if (quick and d >= 2 and L >= 1) or not quick else [rng.choice(MODES)]):
+                    infos.append(("sampler", dict(which="glrd", args=[L, R, d], mode=mode, rseed=rs())))
+    infos.append(("sampler", dict(which="glrd", args=[-1, sys.maxsize + 1, 2], mode="seed", rseed=rs())))
     big = 500 if quick else 20000
     for _ in range(big):
         L, R = rng.randint(1, 8), rng.randint(1, 8)
